@@ -153,6 +153,9 @@ class Conds:
             return {("bool", tree, truth)}
         if k == "call" and tree[2] in ("eq", "ne") and len(tree[3]) == 2:
             op = tree[2] if truth else NEG[tree[2]]
+            v = self._variant_test(df.strip(tree[3][0]), df.strip(tree[3][1]), op)
+            if v is not None:
+                return {v}
             return {("cmp", op, df.strip(tree[3][0]), df.strip(tree[3][1]))}
         if k == "call" and tree[2] in ("lt", "le", "gt", "ge") and len(tree[3]) == 2:
             op = tree[2] if truth else NEG[tree[2]]
@@ -175,6 +178,27 @@ class Conds:
             # bool temporary assigned in several arms: literals common to all definitions compatible with `truth`
             return self._phi_bool(tree, truth, depth)
         return {("bool", tree, truth)}
+
+    def _variant_test(self, a, b, op):
+        """`x == Enum::V` / `x != Enum::V` against a field-less variant value (also the tree a stored
+        `matches!(x, Enum::V(..))` or a predicate helper `x.is_v()` is given, see dataflow._lit_tree): the same
+        `variant` literal a `match`/`matches!` on x yields, so the spellings are indistinguishable to the rules."""
+        if b[0] != "agg" and a[0] == "agg":
+            a, b = b, a
+        if b[0] != "agg" or b[3] or not b[2] or a[0] == "agg":
+            return None
+        allv = None
+        for path, vm in KNOWN_ENUMS.items():
+            if path.split("::")[-1] == b[1]:
+                allv = list(vm.values())
+        if allv is None:
+            for (u, ad) in self.prog.adts.values():
+                if ad["name"] == b[1] and ad["enum"]:
+                    allv = [v["name"] for v in ad["variants"]]
+        if not allv or b[2] not in allv or len(allv) < 2:
+            return None
+        names = frozenset([b[2]]) if op == "eq" else frozenset(v for v in allv if v != b[2])
+        return ("variant", self._norm(a), names, b[1])
 
     def _phi_bool(self, tree, truth, depth):
         # We need the defining blocks; recompute from the defs of the local is not possible from the tree alone,
